@@ -264,7 +264,7 @@ def parse_vspec(text: str, path: str) -> dict:
         elif section[0] == "ghost":
             # ghost snapshots of by-value `mut` parameters (Verus has no old() for them): `let ghost x0 = x;` only
             for gl in t.split("\n"):
-                if gl.strip() and not re.match(r"^\s*let ghost \w+ = [\w@.()]+;\s*$", gl):
+                if gl.strip() and not re.match(r"^\s*let ghost [A-Za-z_][A-Za-z_0-9]*(\s*:[^=;]+)?\s*=[^;]*;\s*$", gl):
                     raise Undecided(f"{path}: @ghost accepts only `let ghost <name> = <path>;` lines, got {gl.strip()!r}")
             if section[1] != "entry":
                 raise Undecided(f"{path}: @ghost supports only the anchor `entry`")
@@ -300,6 +300,9 @@ def parse_vspec(text: str, path: str) -> dict:
         elif s.startswith("@proof "):
             flush()
             section = ("proof", s[len("@proof "):].strip())
+        elif s == "@ghost":
+            flush()
+            section = ("ghost", "entry")
         elif s.startswith("@ghost "):
             flush()
             section = ("ghost", s[len("@ghost "):].strip())
@@ -340,7 +343,7 @@ def find_matching(s: str, i: int, open_c="(", close_c=")") -> int:
     raise Undecided("unbalanced marker")
 
 
-def splice_body(body: str, spec: FnSpec, n_loops: int, key: str) -> str:
+def splice_body(body: str, spec: FnSpec, n_loops: int, key: str, diverge_spec="ensures false") -> str:
     # loops
     for k in range(n_loops):
         inv = spec.loops.get(k, "") if spec else ""
@@ -366,7 +369,7 @@ def splice_body(body: str, spec: FnSpec, n_loops: int, key: str) -> str:
         k = int(m.group(3))
         txt = (spec.closures.get(k) if spec else None)
         if txt is None:
-            txt = "ensures false" if m.group(2) == "diverge" else ""
+            txt = diverge_spec if m.group(2) == "diverge" else ""
         return f"{m.group(1)} {txt.strip()} {{" if txt.strip() else f"{m.group(1)} {{"
     body = re.sub(r"(\|[^|]*\|)\s*\{\s*__vx_(diverge|closure)!\((\d+)\);", clos, body)
     if re.search(r"__vx_\w+!", body):   # markers are macros; `__vx_a<k>` are the T1 argument temporaries
@@ -506,7 +509,7 @@ class Assembled:
 
 def assemble(unit: dict, scratch: str, passname="A") -> Assembled:
     job = {k: unit[k] for k in ("files", "fns", "exclude_fns", "aliases", "rename_calls", "extern_effectful", "extern_pure",
-                                "force_effectful", "native_arith") if k in unit}
+                                "force_effectful", "native_arith", "rename_fns") if k in unit}
     job["root"] = REPO
     job["checked_arith"] = passname == "A"
     if unit.get("expand"):
@@ -597,7 +600,13 @@ def assemble(unit: dict, scratch: str, passname="A") -> Assembled:
         tkey = f"{f.get('trait')} for {f['impl_self_ty']}" if f.get("trait") and not f["in_trait_decl"] else None
         if tkey not in unit.get("trait_impls", {}):
             tkey = None
-        g = (f["impl_type"], f["impl_generics"], f["impl_self_ty"], f.get("impl_where", ""), tkey) if f["impl_type"] else None
+        gtrait = None
+        if f["impl_type"] and f.get("trait") and not f["in_trait_decl"] and (
+                f["trait"] in unit.get("gen_trait_impls", []) or f"{f['trait']} for {f['impl_self_ty']}" in unit.get("gen_trait_impls", [])):
+            # real trait impl with the trait declaration generated from the source (needed when the self type is a
+            # primitive such as i128: no inherent impl possible)
+            gtrait = f["trait"]
+        g = (f["impl_type"], f["impl_generics"], f["impl_self_ty"], f.get("impl_where", ""), tkey, gtrait) if f["impl_type"] else None
         if g not in groups:
             groups[g] = []
             order.append(g)
@@ -610,11 +619,26 @@ def assemble(unit: dict, scratch: str, passname="A") -> Assembled:
         lines += s.count("\n") + 1
 
     emit("// ==== functions extracted from /repo (bodies rewritten only by rules T1-T12) ====")
+    for tname in sorted({t_.split(" for ")[0] for t_ in unit.get("gen_trait_impls", [])}):
+        # declaration of a source trait whose impls are emitted as trait impls (signatures only, from the source)
+        for t in tr["traits"]:
+            if t["trait"] == tname:
+                sups = t["supertraits"] + unit.get("trait_supers", {}).get(tname, [])   # spec-only helper supertraits
+                sup = (": " + " + ".join(sups)) if sups else ""
+                emit(f"pub trait {tname}{sup} {{")
+                for m in t["methods"]:
+                    ps = ", ".join(p["ty"] if p["name"] == "self" else f"{p['name']}: {p['ty']}" for p in m["params"])
+                    treq = unit.get("trait_requires", {}).get(f"{tname}::{m['name']}")   # trait-level precondition (ghost)
+                    emit(f"    fn {m['name']}({ps})" + (f" -> {m['ret']}" if m["ret"] else "") + (f"\n        requires {treq}" if treq else "") + ";")
+                emit("}")
     for g in order:
         deferred = []   # canaries of trait-impl methods go into an inherent impl after the trait impl
+        pending_canaries = []   # canaries of generated trait impls go into a companion trait
         if g is not None:
             wh = (" " + g[3]) if g[3] else ""
-            if g[4]:
+            if g[5]:
+                emit(f"impl{g[1]} {g[5]} for {g[2]}{wh} {{")
+            elif g[4]:
                 emit(f"impl{g[1]} {g[4]}{wh} {{")
                 for it in groups[g][0].get("impl_assoc", []):
                     emit("    " + it)
@@ -625,7 +649,7 @@ def assemble(unit: dict, scratch: str, passname="A") -> Assembled:
         for f in groups[g]:
             key = f["key"]
             sp = specs.get(key)
-            body = splice_body(rn(f["body"]), sp, f["n_loops"], key)
+            body = splice_body(rn(f["body"]), sp, f["n_loops"], key, unit.get("diverge_spec", "ensures false"))
             bc = (sp.opts.get("broadcast") if sp else None) or ",".join(unit.get("broadcast", []))
             if bc and bc != "none":
                 i = body.index("{")
@@ -634,8 +658,13 @@ def assemble(unit: dict, scratch: str, passname="A") -> Assembled:
             attrs = ""
             if sp and sp.trusted:
                 attrs = "#[verifier::external_body]\n"
+            if sp and sp.opts.get("loop_isolation") == "false":
+                # verifier attribute only: loops keep the facts established before them (needed when an early
+                # `return` inside a loop must be related to the initial value of a `mut` parameter)
+                attrs += "#[verifier::loop_isolation(false)]\n"
             start = lines + 1
-            hdr = rn(fn_header(f))
+            ret_name = (sp.opts.get("ret") if sp else None) or ("res" if any(p["name"] in ("r", "mut r") for p in f["params"]) else "r")
+            hdr = rn(fn_header(f, ret_name=ret_name))
             emit(f"// @@fn {key}  [{f['file']}]  src_sha={f['src_sha'][:16]}")
             emit(attrs + "/*@exec*/ " + hdr)
             cstart = lines + 1
@@ -651,12 +680,15 @@ def assemble(unit: dict, scratch: str, passname="A") -> Assembled:
             asm.fn_ranges.append((start, lines, key, "fn"))
             asm.fns[key] = f
             if sp and sp.contract.strip() and not sp.trusted and sp.no_canary is None and unit.get("canaries", True):
+                if g is not None and g[5]:
+                    pending_canaries.append((key, f, contract, body, ret_name))
+                    continue
                 if g is not None and g[4]:
                     deferred.append((f, key, contract, body))
                     continue
                 cs = lines + 1
                 emit(f"// @@canary {key}")
-                emit("/*@canary*/ " + rn(fn_header(f, name_override=f["name"] + "__canary")))
+                emit("/*@canary*/ " + rn(fn_header(f, name_override=f["name"] + "__canary", ret_name=ret_name)))
                 req = strip_ensures(contract)
                 emit(req + ("\n" if req.strip() else "") + "    ensures false,")
                 bstart = lines + 1
@@ -665,6 +697,32 @@ def assemble(unit: dict, scratch: str, passname="A") -> Assembled:
                 asm.fn_ranges.append((cs, lines, key, "canary"))
                 asm.n_canaries += 1
         if g is not None:
+            emit("}")
+        if pending_canaries:
+            ct = f"{g[5]}__canary_{re.sub(r'[^A-Za-z0-9]', '_', g[2])}"
+            emit(f"pub trait {ct}: " + " + ".join(["Sized"] + unit.get("trait_supers", {}).get(g[5], [])) + " {")
+            for (key, f, contract, body, ret_name) in pending_canaries:
+                treq = unit.get("trait_requires", {}).get(f"{g[5]}::{f['name']}")   # same trait-level precondition as the real method
+                decl = fn_header(f, name_override=f["name"] + "__canary").replace("pub fn", "fn").replace("-> (r: ", "-> (").rstrip()
+                for t_ in tr["traits"]:
+                    for m_ in t_["methods"]:
+                        if t_["trait"] == g[5] and m_["name"] == f["name"]:   # the source trait's own signature (Self-typed)
+                            ps_ = ", ".join(p_["ty"] if p_["name"] == "self" else f"{p_['name']}: {p_['ty']}" for p_ in m_["params"])
+                            decl = f"fn {f['name']}__canary({ps_})" + (f" -> {m_['ret']}" if m_["ret"] else "")
+                emit("    " + decl + (f"\n        requires {treq}" if treq else "") + ";")
+            emit("}")
+            emit(f"impl{g[1]} {ct} for {g[2]} {{")
+            for (key, f, contract, body, ret_name) in pending_canaries:
+                cs = lines + 1
+                emit(f"// @@canary {key}")
+                emit("/*@canary*/ " + fn_header(f, name_override=f["name"] + "__canary", ret_name=ret_name))
+                req = strip_ensures(contract)
+                emit(req + ("\n" if req.strip() else "") + "    ensures false,")
+                bstart = lines + 1
+                emit(body)
+                asm.body_ranges.append((bstart, lines))
+                asm.fn_ranges.append((cs, lines, key, "canary"))
+                asm.n_canaries += 1
             emit("}")
         if deferred:
             wh = (" " + g[3]) if g[3] else ""
@@ -792,6 +850,8 @@ def parse_diagnostics(stderr: str):
         if last_src is not None and re.match(r"^\s*\|\s*[\^\-_|]", l):
             # underline for last_src, maybe with label text
             cur["marked"].append((last_src, l.strip()))
+            if "in this macro invocation" in l:
+                cur["line"] = last_src     # an obligation inside `panic_with_error!` belongs to the function that invokes the macro
     return diags
 
 
